@@ -436,6 +436,14 @@ class Ctx:
                 return self.neg(self.of_term(args[0]))
             if n == 'sqrt':
                 return self.sqrt(self.of_term(args[0]))
+            if n == 'powi' and len(args) == 2 and args[1][0] == 'int' and 0 <= args[1][1] <= 8:
+                r = self.rf(p_const(1))
+                base = self.of_term(args[0])
+                for _ in range(args[1][1]):
+                    r = self.mul(r, base)
+                return r
+            if n == 'ssub' and len(args) == 2:
+                return self.rf(p_atom(('max', self.key(self.sub(self.of_term(args[0]), self.of_term(args[1]))), self.key(self.rf(p_const(0))))))
             if n in ('floor', 'round', 'ceil', 'trunc', 'round_ties_even') and _int_valued(args[0]):
                 return self.of_term(args[0])   # rounding an integer-valued expression is the identity
             if n in ('exp', 'ln', 'abs', 'floor', 'round', 'f2i', 'min', 'max', 'fmin', 'fmax', 'len', 'powi', 'index', 'ceil', 'trunc', 'signum', 'powf', 'round_ties_even'):
